@@ -158,4 +158,51 @@ def match_d21(case, kind, detail):
     return False
 
 
-MATCHERS = {'D11': match_d11, 'D20': match_d20, 'D21': match_d21}
+import re
+_SURR = re.compile(rb'\\(u[dD][89a-fA-F][0-9a-fA-F]{2}|U0000[dD][89a-fA-F][0-9a-fA-F]{2})')
+
+
+def has_surrogate_escape(case):
+    for p, ino in case.tree.files():
+        if os.path.basename(p).startswith('Manifest'):
+            raw = OX.plain_bytes(p, case.tree.nodes[ino]['data'])
+            if raw and _SURR.search(raw):
+                return True
+    return False
+
+
+def match_d13(case, kind, detail):
+    """a path written with an escape for a lone surrogate: UnicodeEncodeError when the path reaches the filesystem"""
+    return kind == 'internal' and detail[1:3] == ['Internal', 'UnicodeError'] and has_surrogate_escape(case)
+
+
+def hidden_manifests(case):
+    """a Manifest below a hidden directory that is referenced by a MANIFEST entry"""
+    out = []
+    for m, ents in pre_manifests(case).items():
+        d = os.path.dirname(m)
+        for e in ents:
+            if e[0] == 'MANIFEST':
+                tgt = OX.norm(d, e[1])
+                if OX.hidden(tgt) and case.tree.lookup(tgt) is not None:
+                    out.append(tgt)
+    return out
+
+
+def match_d12(case, kind, detail):
+    return kind == 'internal' and detail[1:3] == ['Internal', 'AssertionError'] and bool(hidden_manifests(case))
+
+
+def match_d21_internal(case, kind, detail):
+    return kind == 'internal' and detail[1:3] == ['Internal', 'AssertionError'] and bool(d21_dirs(case))
+
+
+def match_d8(case, kind, detail):
+    """old-ebuild profile: a new file typed AUX (a path with a files/ component at depth 3) whose governing Manifest
+    is not the package's: the entry class is built with the full path"""
+    return kind == 'internal' and detail[1:3] == ['Internal', 'AssertionError'] and case.opts[4] == 'old-ebuild' \
+        and any('files' in p.split('/')[2:3] for p, _ in case.tree.files())
+
+
+MATCHERS = {'D11': match_d11, 'D20': match_d20, 'D21': lambda c, k, d: match_d21(c, k, d) or match_d21_internal(c, k, d),
+            'D13': match_d13, 'D12': match_d12, 'D8': match_d8}
